@@ -57,6 +57,26 @@ def c05(tier, seed, t0):
     return lexer_step("C05", tier, seed, t0, "asserted: get_next_token returns (Token | None at end of input) and raises nothing")
 
 
+@register("C11")
+def c11(tier, seed, t0):
+    from harness import literals as H
+    N = int(os.environ.get("VERIF_N", 0)) or (7 if tier == "quick" else 9)
+    budget = 150 if tier == "quick" else 2400
+    res = R.run_pool(H.HNAME, H.chunks(tier, N), budget, seed, tier, extra=dict(sample_rate=0.1 if tier == "quick" else 0.03))
+    agg = R.merge(res)
+    bounds = dict(literal_chars=N, numeric_alphabet=H.NUM_ALPHA, quoted_alphabet=H.QUO_ALPHA,
+                  delimiters=dict(numeric=H.NUM_DELIMS, quoted=H.QUO_DELIMS), start_position="(1,1) (positions are C09's subject)",
+                  outside="literals longer than the bound; hex escapes with more than 2 digits; octal escapes with more than 3; "
+                          "multi-character constants; trigraph/digraph/splice/tab inside literals (C10/C12); non-ASCII")
+    return R.report("C11", H.HNAME, tier, seed, agg, t0, bounds,
+                    functions=["Lexer.parse_integer_literal", "Lexer.parse_float_literal", "Lexer.parse_char_literal",
+                               "Lexer.parse_string_literal", "Lexer.parse_multi_line_comment", "Lexer.pop", "Lexer.peek",
+                               "INT_LITERAL_PATTERN", "FLOAT_EXPONENT_LITERAL_PATTERN", "FLOAT_FRACTIONAL_LITERAL_PATTERN",
+                               "FLOAT_HEXADECIMAL_LITERAL_PATTERN", "integer_suffixes", "float_suffixes"],
+                    assumptions=["reference recogniser oracle/c_literals.py (C11 6.4.4/6.4.5 + documented extensions)",
+                                 "families V-int V-float V-char V-str and M1..M15 as in DESIGN.md 4.11; strings outside every family are skipped (counted)"])
+
+
 def main():
     ap = argparse.ArgumentParser()
     ap.add_argument("prop")
